@@ -7,7 +7,9 @@ pub mod c05;
 pub mod c07;
 pub mod c09;
 pub mod c10;
+pub mod c11;
 pub mod c12;
+pub mod c13;
 pub mod c15;
 pub mod c16;
 
@@ -44,7 +46,9 @@ pub fn run(ctx: &RunCtx) -> Option<PropResult> {
         "C07" => Some(c07::run(ctx)),
         "C09" => Some(c09::run(ctx)),
         "C10" => Some(c10::run(ctx)),
+        "C11" => Some(c11::run(ctx)),
         "C12" => Some(c12::run(ctx)),
+        "C13" => Some(c13::run(ctx)),
         "C15" => Some(c15::run(ctx)),
         "C16" => Some(c16::run(ctx)),
         _ => None,
@@ -121,7 +125,9 @@ fn replay_other(ctx: &RunCtx, phase: &str, case: &serde_json::Value, dir: &std::
         "C07" => c07::replay_other(phase, case, dir, &ctx.findings),
         "C09" => c09::replay_other(phase, case, dir),
         "C10" => c10::replay_other(phase, case, dir),
+        "C11" => c11::replay_other(phase, case, dir, &ctx.findings),
         "C12" => c12::replay_other(phase, case, dir, &ctx.findings),
+        "C13" => c13::replay_other(phase, case, dir, &ctx.findings),
         "C16" => c16::replay_other(phase, case, dir, &ctx.findings),
         _ => None,
     }
